@@ -30,6 +30,15 @@ def core():
         T("f", "T", ["A01", "B01"], "Q", ["C01", "C02"], [50, 100], "L"),  # exactly 1 x and 2 x max_volume
         ["distribute", "e", "T", 0, "Q", ["A01", "B01"], {"volume": 30, "label": "L"}],
         ["distribute", "f", "T", 1, "P", ["A01"], {"volume": 7.5}],
+    ] + failing()
+
+
+def failing():
+    """operations that are refused (at once / after a part of them was applied); the labware stays in use"""
+    return [
+        ["add", "Q", "A01", 1000, {"label": "L"}],
+        ["dispense", "e", "Q", ["A01", "B01"], [30, 1000], {}],
+        T("f", "T", ["A01"], "Q", ["C02"], [200], "L"),
     ]
 
 
@@ -113,6 +122,7 @@ class Harness(cm.BaseA):
             parts.append(repr([l for l, _ in hist]).encode())
             parts += [np.asarray(a, dtype=float).tobytes() for _, a in hist]
             parts.append(lw.volumes.astype(float).tobytes())
+        parts.append(repr((W.get("failed", 0), W.get("dirty", []))).encode())
         return b"|".join(parts)
 
     def step(self, W, ev, config):
@@ -130,7 +140,12 @@ class Harness(cm.BaseA):
         res = {"outcome": f"{op}:{out}", "violations": []}
         V = res["violations"]
         if out != "ok":
-            res["expand"] = False
+            # a refused operation promises nothing about the history; the labware it touched may be left
+            # half-applied until their next successful operation logs the current state again
+            W["failed"] = W.get("failed", 0) + 1
+            touched = {ev[1]} if op in ("add", "remove") else {ev[2]} if op in ("aspirate", "dispense") else {ev[2], ev[4]}
+            W["dirty"] = sorted(set(W.get("dirty", [])) | touched)
+            res["expand"] = W["failed"] <= 1 and ev in failing()
             return res
         if op in ("add", "remove"):
             label, parts = ev[4].get("label"), {ev[1]}
@@ -173,7 +188,9 @@ class Harness(cm.BaseA):
             elif n not in parts and grew != 0:
                 V.append(("C11/entries-per-operation", f"{op}: history of bystander {n} grew by {grew}"))
             # the newest entry is the current state
-            if not np.array_equal(newh[-1], lw.volumes):
+            if n in parts and moved and n in W.get("dirty", []):
+                W["dirty"] = [x for x in W["dirty"] if x != n]
+            if n not in W.get("dirty", []) and not np.array_equal(newh[-1], lw.volumes):
                 V.append(("C11/newest-entry-is-not-current-volumes", f"{n}: {newh[-1].tolist()} vs {lw.volumes.tolist()}"))
             # label of the newest entry
             if n in parts and moved and grew >= 1:
@@ -224,9 +241,9 @@ class Harness(cm.BaseA):
             V.append(("C11/snapshot-mutated", d))
         for n, lw in lws.items():
             mine = lw.volumes
-            keep = mine.copy()
+            keep, keep_h = mine.copy(), lw.history[-1][1].copy()
             mine[...] = -1.0  # what the caller does to its copy is its own business
-            if not np.array_equal(lw.volumes, keep) or not np.array_equal(lw.history[-1][1], keep):
+            if not np.array_equal(lw.volumes, keep) or not np.array_equal(lw.history[-1][1], keep_h):
                 V.append(("C11/snapshot-mutated", f"writing into the array returned by {n}.volumes changed the labware"))
         if changed:
             res["nontrivial"] = self.canon(W, config)
